@@ -532,6 +532,22 @@ class TypeChecker:
         self.check_expr(expr.a, rvalue=True)
         expr.lvalue = False
 
+        # Check that the code generator can do this conversion:
+        from_type = self.context.get_type(expr.a.typ)
+        to_type = self.context.get_type(expr.to_type)
+        numeric = (ast.IntegerType, ast.FloatType)
+        address = (ast.IntegerType, ast.PointerType)
+        if isinstance(from_type, numeric) and isinstance(to_type, numeric):
+            pass
+        elif isinstance(from_type, address) and isinstance(to_type, address):
+            pass
+        elif self.context.equal_types(from_type, to_type):
+            pass
+        else:
+            raise SemanticError(
+                f"Cannot cast {from_type} to {to_type}", expr.loc
+            )
+
         expr.typ = expr.to_type
 
     def check_function_call(self, expr):
